@@ -241,4 +241,6 @@ def run(ctx):
     from sa.rules import C02
     C02.number_syntax(ctx, repo)
     C02.injectivity(ctx, repo, dis)
+    from sa.rules import memo
+    memo.run_for(ctx, repo, 'C01')
     return report.finish(ctx, EXPLANATION)
